@@ -229,7 +229,8 @@ def _has_star(s, depth: int = 0) -> bool:
         return len(s) > 3 and isinstance(s[3], tuple) and "*" in s[3]
     if s and s[0] == "const":
         return False
-    return any(_has_star(a, depth + 1) for a in s[1:] if isinstance(a, tuple))
+    rest = s[1:] if s and isinstance(s[0], str) else s  # an untagged tuple (e.g. an index tuple) is searched entirely
+    return any(_has_star(a, depth + 1) for a in rest if isinstance(a, tuple))
 
 
 # functions with f(z) + f(-z) = 1, known by a recognised shape (logistic) or by role (the Gaussian CDF)
